@@ -349,9 +349,9 @@ class GroupedList(list):
         group_idx = self.index(group_leader)
         self[group_idx] = group_member
 
-        # replacing in the dict
-        self.content.update({group_member: self.content[group_leader][:]})
-        self.content.pop(group_leader)
+        # replacing in the dict (popping first: the leader is a member of its own group)
+        group_values = self.content.pop(group_leader)
+        self.content.update({group_member: group_values[:]})
 
         # sorting things up
         self.sort_by(self)
